@@ -125,6 +125,15 @@ impl<'a> Session<'a> {
         self.new_gen(0);
         self.update(0, data);
         self.fin(0);
+        // the one-call helper on the same bytes (builds with the easy functions only)
+        #[cfg(feature = "easy")]
+        if data.len() <= 700 {
+            let o = self.v.hash_buf(data);
+            self.out.emit(
+                Ev::new("hash_buf").str("v", self.v.name()).bytes("data", data)
+                    .raw("r", &res_json(&o.v.clone().unwrap_or(Err("PANIC".into())))).meas(o.a, &o.p),
+            );
+        }
     }
 }
 
